@@ -64,21 +64,40 @@ class Oracle:
                 yield "0x" + v
 
     def _deref(self, body, text, env):
+        """-> list of environments under which the operand text is the memory reference `body` describes (fields may
+        define or use captures: the component text then goes through the capture rules)"""
         b, c, k = body.get("register_multiplier"), body.get("constant_multiplier"), body.get("constant_offset")
         if b is None and c is not None:
-            return False
-        for a in self._deref_alts(body["main_reg"], "reg", env):
-            mids = [""]
-            if b is not None and c is None:
-                mids = [f"+{x}" for x in self._deref_alts(b, "reg", env)]
-            elif b is not None:
-                mids = [f"+{x}*{y}" for x in self._deref_alts(b, "reg", env) for y in self._deref_alts(c, "const", env)]
-            tails = [""] if k is None else [f"+{x}" for x in self._deref_alts(k, "const", env)]
-            for m in mids:
-                for t in tails:
-                    if text == f"[{a}{m}{t}]":
-                        return True
-        return False
+            return []
+        if not (text.startswith("[") and text.endswith("]")):
+            return []
+        parts = text[1:-1].split("+")
+        if len(parts) != 1 + (b is not None) + (k is not None):
+            return []
+        comps = [(body["main_reg"], "reg", parts[0])]
+        if b is not None:
+            if c is not None:
+                if parts[1].count("*") != 1:
+                    return []
+                x, y = parts[1].split("*")
+                comps += [(b, "reg", x), (c, "const", y)]
+            else:
+                if "*" in parts[1]:
+                    return []
+                comps.append((b, "reg", parts[1]))
+        if k is not None:
+            comps.append((k, "const", parts[-1]))
+        envs = [env]
+        for field, kind, comp in comps:
+            nxt = []
+            for e in envs:
+                f = field[0] if isinstance(field, list) else field
+                if isinstance(f, str) and f.startswith("&"):
+                    nxt.extend(self._capture_operand(f, comp, e))
+                elif comp in list(self._deref_alts(field, kind, e)):
+                    nxt.append(e)
+            envs = nxt
+        return envs
 
     # ---- operand level: yields (next_index, env)
     def opl(self, node, ops, j, env):
@@ -105,8 +124,9 @@ class Oracle:
             if j < len(ops) and not any(True for nj, _ in self.opl(body[0], ops, j, env) if nj == j + 1):
                 yield j + 1, env
         elif name == "$deref":
-            if j < len(ops) and self._deref(body, ops[j], env):
-                yield j + 1, env
+            if j < len(ops):
+                for e in self._deref(body, ops[j], env):
+                    yield j + 1, e
         else:
             raise ValueError(node)
 
